@@ -24,6 +24,8 @@ def configs(tier):
             out.append({"part": "shuffle", "bases": bases, "neg": neg})
     for nets, data in ((["rbm_am"], "tensor"), (["rbm_am"], "array"), (["rbm_am", "rbm_ph"], "tensor"), (["rbm_am", "rbm_ph"], "array")):
         out.append({"part": "fit", "nets": nets, "bases": len(nets) == 2, "scheduler": False, "data": data})
+    # sizes handed over as numpy integer scalars (a sweep over np.arange): isinstance(x, int) is False for them
+    out.append({"part": "fit", "nets": ["rbm_am"], "bases": False, "scheduler": False, "data": "tensor", "sizes": "numpy integers"})
     out.append({"part": "index-lemmas"})
     out.append({"part": "second-fit", "nets": ["rbm_am", "rbm_ph"], "bases": True, "scheduler": False, "data": "tensor"})
     # the callee that provides the reference-basis rows the negative phase starts from (its contract is assumed by the fit part)
@@ -130,6 +132,7 @@ def _second_fit(ctx, cfg):
 
 
 def run_config(ctx, cfg):
+    A.INT_KIND[0] = "numpy" if cfg.get("sizes") == "numpy integers" else "python"
     if cfg["part"] == "refbasis":
         from lemmas import C19
         return C19._refbasis(ctx, cfg)
